@@ -122,6 +122,13 @@ func (c *EvalCtx) ident(name string) Term {
 	if strings.HasPrefix(name, "__h_") {
 		c.fail("hidden variable #%s is not available at this program point", strings.TrimPrefix(name, "__h_"))
 	}
+	switch name {
+	case "held":
+		h, _ := c.u.lockGhost(c.st)
+		return h
+	case "excl":
+		return c.u.exclTerm(c.st)
+	}
 	if c.st != nil {
 		if g, ok := c.st.ghost[name]; ok {
 			return g
